@@ -445,6 +445,14 @@ class C05(Check):
         sc['swarm']['gate_mode'] = 'rest'
         sc['swarm']['w_timeout'] = 2
         cfg = ch.stream('config')
+        if cfg.chance(1, 160):
+            # a wide run: hundreds of independent tasks runnable at once on a runner without a worker limit
+            # (capacity is "whatever is runnable": nothing may be held back, however long the backlog)
+            n = 260 + cfg.draw(80)
+            wide = [{'id': i, 'type': 'TA', 'tag': 'a', 'deps': ['t', []], 'opt': ['s', 'none', None]} for i in range(n)]
+            sc = {k: sc[k] for k in ('cpu_count', 'cof', 'gen_pre', 'gen_main', 'swarm', 's1')}
+            sc.update(nodes=wide, requested=[[i, 0] for i in range(n)], backend='sim', max_workers=None)
+            return sc
         if cfg.chance(1, 4):
             sc['prelude'] = {'max_workers': cfg.pick([1, 2, 3, None]), 'n': 3}
         if sc['backend'] in ('fork', 'spawn') and cfg.chance(1, 4):
